@@ -67,6 +67,18 @@ def families(tier):
         for o in (['A', 'B'], ['B', 'A']):
             out.append(dict(prop='C02', family='c02.fifo.parallel_parent', id=f'c02/parpar-g{int(giveup)}-n{nsib}-y{yq}-o{"".join(o)}', cfg=dict(cfg, window=0.7), params=dict(topo='parpar', pshape='sib'),
                             scn=dict(buses={'A': dict(parallel=True), 'B': {}}, order=o, handlers=hs, main=main, actors=[], forwards=[], settle=3.0)))
+    # a handler on serial A (0.5 s time-out) awaits a child on the parallel_handlers bus B whose two handlers are both running when the time-out fires; the
+    # second of them would go on to dispatch to serial bus C and await there - while C is in the middle of another event.  Whatever is left of an
+    # interrupted event must not start events on C out of turn
+    for k2shape, y_first in itertools.product(('pause_aw', 'pause_pause_aw'), (True, False)):
+        k2 = [('pause',)] * (2 if k2shape == 'pause_pause_aw' else 1) + [('disp', 'C', 'G', 'await'), ('ret', 2)]
+        hs = [dict(bus='A', pat='P', name='hp', prog=[('disp', 'B', 'C', 'await')]), dict(bus='B', pat='C', name='k1', prog=[('pause',), ('ret', 1)]), dict(bus='B', pat='C', name='k2', prog=k2),
+              dict(bus='C', pat='Y', name='hyC', prog=[('pause',), ('pause',)]), dict(bus='C', pat='G', name='hgC', prog=[('ret', 0)]), dict(bus='A', pat='X', name='hxA', prog=[('ret', 0)]),
+              dict(bus='A', pat='*', name='probeA', prog=[('ret', 0)], kind='sync'), dict(bus='B', pat='*', name='probeB', prog=[('ret', 0)], kind='sync'), dict(bus='C', pat='*', name='probeC', prog=[('ret', 0)], kind='sync')]
+        main = ([('disp', 'C', 'Y', 'ff')] if y_first else []) + [('disp', 'A', 'P', 'ff', {'timeout': 0.5}), ('disp', 'A', 'X', 'ff')] + ([] if y_first else [('disp', 'C', 'Y', 'ff')]) + [('sleep', 0.6), ('disp', 'C', 'Y2', 'ff')]
+        for o in (['A', 'B', 'C'], ['C', 'B', 'A']):
+            out.append(dict(prop='C02', family='c02.fifo.leftover_of_interrupted_event', id=f'c02/leftover-{k2shape}-y{int(y_first)}-o{"".join(o)}', cfg=dict(cfg, window=1.2, max_targets=3), params=dict(topo='leftover', pshape='tmo'),
+                            scn=dict(buses={'A': {}, 'B': dict(parallel=True), 'C': {}}, order=o, handlers=hs, main=main, actors=[], forwards=[], settle=3.0)))
     # the grammar-generated corpus shared by the bus properties (vsched/gen.py), judged by this property's oracle
     from .. import gen
     out += gen.family('C02', tier, params=dict(topo='gen', pshape='gen'), timeouts=(None,))
